@@ -7,9 +7,11 @@ V=$(pwd)
 export VERIF_REPO=$R VERIF_EVIDENCE_DIR=$V/.cache/seed-evidence GOFLAGS=-mod=mod GOPROXY=off GOSUMDB=off GOTOOLCHAIN=local
 sed -i "s|=> /repo|=> $R|" harness/go.mod
 ./setup.sh >/dev/null 2>&1 || echo "setup failed"
+# SEEDS="id id ..." restricts the sweep; PROP=Cxx checks that property instead of the one the seed breaks
 for d in seeded/*/; do
   id=$(basename $d)
-  prop=$(python3 -c "import json;print(json.load(open('$d/meta.json'))['breaks_property'])")
+  if [ -n "$SEEDS" ]; then case " $SEEDS " in *" $id "*) ;; *) continue;; esac; fi
+  prop=${PROP:-$(python3 -c "import json;print(json.load(open('$d/meta.json'))['breaks_property'])")}
   (cd $R && git apply $V/$d/patch.diff) || { echo "$id $prop PATCH-DOES-NOT-APPLY"; continue; }
   out=$(./check $prop 2>&1 | grep -v '^#' | tail -1 | cut -c1-160)
   n=$(ls replays/$prop 2>/dev/null | wc -l)
